@@ -38,9 +38,13 @@ EXPLANATION = ('C16 is claimed at level "other": the recovery of a planted thres
                'invariance of cost/truncation/quantiles, estimate inside its own interval for every bootstrap sample, '
                'complete characterisation of get_fit_status.  TESTED on every run: planted (p_th, nu, A, B, C) in a '
                'well-conditioned box, 3-5 distances with d_max >= 2 d_min, 7-11 error rates around p_th, 20000 trials per '
-               'point with n_fail = round(f n): fss_params within 1e-3 relative of the planted p_th, p_th_fss within '
-               '2 x interval width + 1e-4, inside its interval and the data range, status success, identical under a '
-               'different file layout / order.')
+               'point with n_fail = round(f n): p_th_fss within 2 x interval width + 1e-4 of the planted p_th, inside its '
+               'interval and the data range, status success, all rows used, pooled counts as planted, bootstrap '
+               "fits' A scattered around the planted A, identical under a different file layout / order; "
+               'curve_fit is spied at its boundary and the reported fss_params are compared with what it '
+               'returned (model: in-place overwrite sequence of get_fit_params).  Observed: in about 1% of the '
+               'planted data sets the first fit ends in a local minimum outside the data range (third-party '
+               'behaviour, not counted) and panqec then reports the mid-range value as fss_params[0] (known finding).')
 TRUSTED = ['scipy.optimize.curve_fit returns a minimiser of the least-squares cost within ftol (contract; tested on '
            'planted data, compared with the planted cost by the model driver)',
            'numpy Generator(seed 0).beta / choice, np.quantile (linear), np.median, np.std',
